@@ -296,10 +296,10 @@ ImplOutLoc ==
     [] lay.out = "rel"      -> "cwd:out/v3.yml"
     [] lay.out = "samebase" -> "cwd:<input base name>"
     [] lay.out = "abs"      -> "abs:abs-out.yml"
-    [] lay.out = "input"    -> "input"       \* known deviation C19-outfile-is-input: O_TRUNC on the v2 file itself
+    [] lay.out = "input"    -> "-"           \* os.SameFile(input, output): refused, nothing written (fix 48b9394)
 Encode ==
   /\ pc = "levels" /\ todo = << >>
-  /\ pc' = "done" /\ res' = "ok"
+  /\ pc' = "done" /\ res' = IF lay.out = "input" THEN "fail" ELSE "ok"
   /\ wrote' = ImplOutLoc
   /\ UNCHANGED <<fam, shape, sets, vi, nm, bad, lay, todo, out>>
 
@@ -308,7 +308,8 @@ Spec == Init /\ [][Next]_vars
 
 -----------------------------------------------------------------------------
 (* Impl => Contract *)
-ImplConforms == pc = "done" /\ bad = "none" => res = "ok" /\ TreeOK(V2, out) /\ (lay.out # "input" => wrote = OutLocId(lay))
+ImplConforms == pc = "done" /\ bad = "none" => IF lay.out = "input" THEN wrote # "input"
+                                               ELSE res = "ok" /\ TreeOK(V2, out) /\ wrote = OutLocId(lay)
 
 TypeOK == /\ shape \in Shapes /\ vi \in AllStyles /\ pc \in {"choose", "decode", "top", "levels", "done"}
           /\ \A L \in AllLevels : sets[L] \subseteq Keys
